@@ -1,7 +1,7 @@
 //! The BUF-SIM simulation core: events, simulated TX/RX state, drawing, execution,
 //! minimisation. Shared by bufsim (C18) and tierd (the derive-vs-CLI tier of C11).
 
-use crate::laws::{Cap, LawViolation, Prov, RecvOutcome, SendOutcome, TypeOps, WriterKind};
+use buflaws::laws::{Cap, LawViolation, Prov, RecvOutcome, SendOutcome, TypeOps, WriterKind};
 use serde_json::{json, Value};
 use simcore::{hex, stable_hash, unhex, Rng};
 use std::collections::{BTreeMap, BTreeSet};
